@@ -108,6 +108,7 @@ type interpreter struct {
 	bypass   *ssa.Function // call the real body of this function once, not its intrinsic
 	tolerantInit *ssa.Function
 	onSortSlice  value
+	gobst        *gobState
 	twinLabel string
 	baseMapOrder int
 	atomicAdversary func(p *value)
